@@ -10,8 +10,12 @@ lost and nothing further than 1 ms outside it is admitted, well inside the prope
 `inWindow st en e` is the closed-interval test `st ≤ e.ts + e.dur ∧ e.ts ≤ en`.
 
 Hypotheses the proofs forced (each is at an excluded point where the real code was run, DESIGN §8 C03):
-* sqlite, no start bound: the statement filters `endtime >= 0`, so completeness needs the event to
-  end at or after the epoch (dates from 1970 on, as the property says);
+* sqlite: none any more. History of repair F22: without a start bound the statement used to filter
+  `endtime >= 0`, so completeness (then `complete_sqlite_partial`) and the count inequality needed
+  the event(s) to end at or after the epoch, and soundness recorded the extra filter; since the
+  repair such a read has no lower bound and `sound_sqlite`, `complete_sqlite`,
+  `count_agrees_sqlite` have the shape of the memory theorems
+  (`sqlite_before_epoch_now_read`: the former counterexample, now read);
 * peewee: the 24 h prefilter (events up to 24 h long, as the property says); the exact-arithmetic
   range filter stands for SQLite's `julianday`/`strftime` expression, whose error (< 1 ms) is a
   parameter compared tolerantly by the correspondence check.
@@ -42,18 +46,17 @@ theorem window_tolerance (st en : Option Int) (x : Ev D) :
 /-- soundness: every returned event is a stored event of the bucket that reaches into the window -/
 theorem sound_sqlite (s : Sqlite.St D) (b : String) (limit : Int) (st en : Option Int) (x : Ev D)
     (hx : x ∈ Sqlite.getEvents s b limit st en) :
-    ∃ m es, Sqlite.view s b = some (m, es) ∧ x ∈ es ∧ inWindow st en x = true ∧
-      (st = none → 0 ≤ x.ts + x.dur) :=
+    ∃ m es, Sqlite.view s b = some (m, es) ∧ x ∈ es ∧ inWindow st en x = true :=
   Sqlite.get_sound s b limit st en x hx
 
-/-- completeness (PARTIAL only in the epoch clause: without a start bound the event must end at or
-    after 1970) -/
-theorem complete_sqlite_partial (s : Sqlite.St D) (b : String) (limit : Int) (hl : limit < 0)
+/-- completeness: every stored event of the bucket that reaches into the window is returned by an
+    unlimited read, with or without a start bound (repaired, F22; this replaces
+    `complete_sqlite_partial`, which required `st = none → 0 ≤ e.ts + e.dur`) -/
+theorem complete_sqlite (s : Sqlite.St D) (b : String) (limit : Int) (hl : limit < 0)
     (st en : Option Int) (m : Meta) (es : List (Ev D)) (hv : Sqlite.view s b = some (m, es))
-    (e : Ev D) (he : e ∈ es) (hw : inWindow st en e = true)
-    (hpos : st = none → 0 ≤ e.ts + e.dur) :
+    (e : Ev D) (he : e ∈ es) (hw : inWindow st en e = true) :
     e ∈ Sqlite.getEvents s b limit st en :=
-  Sqlite.get_complete_partial s b limit hl st en m es hv e he hw hpos
+  Sqlite.get_complete s b limit hl st en m es hv e he hw
 
 /-- ordered by timestamp descending (ties by id descending) -/
 theorem sorted_desc_sqlite (s : Sqlite.St D) (b : String) (limit : Int) (st en : Option Int) :
@@ -73,9 +76,22 @@ theorem limit_sqlite (s : Sqlite.St D) (b : String) (st en : Option Int) :
     more than a read of the rounded window returns -/
 theorem count_agrees_sqlite (s : Sqlite.St D) (b : String) (st en : Option Int) :
     Sqlite.getEventcount s b st en = (Sqlite.getEvents s b (-1) st en).length ∧
-    ((∀ m es, Sqlite.view s b = some (m, es) → ∀ e ∈ es, 0 ≤ e.ts + e.dur) →
-      Sqlite.getEventcount s b st en ≤ (Sqlite.getEvents s b (-1) (roundWin st en).1 (roundWin st en).2).length) :=
+    Sqlite.getEventcount s b st en ≤ (Sqlite.getEvents s b (-1) (roundWin st en).1 (roundWin st en).2).length :=
   ⟨Sqlite.count_eq s b st en, Sqlite.count_le_get_rounded s b st en⟩
+
+/-- History of repair F22. On this state (bucket "a" holds three events, one of them ending before
+    1970) the old read without a start bound returned only the two events ending at or after the
+    epoch (`Sqlite.get_complete_counterexample`, the reason for `complete_sqlite_partial`). The
+    repaired read returns all three, the pre-1970 event last, and the count agrees. -/
+theorem sqlite_before_epoch_now_read :
+    Sqlite.view Sqlite.exReads "a" = some (default,
+      [⟨some 1, 5000, 4000, ()⟩, ⟨some 3, 5000, 0, ()⟩, ⟨some 4, -9000, 1000, ()⟩]) ∧
+    Sqlite.getEvents Sqlite.exReads "a" (-1) none none
+      = [⟨some 3, 5000, 0, ()⟩, ⟨some 1, 5000, 4000, ()⟩, ⟨some 4, -9000, 1000, ()⟩] ∧
+    Sqlite.getEvents Sqlite.exReads "a" (-1) none (some (-8500)) = [⟨some 4, -9000, 1000, ()⟩] ∧
+    Sqlite.getEventcount Sqlite.exReads "a" none none = 3 :=
+  ⟨Sqlite.get_complete_before_epoch_now_read.1, Sqlite.get_complete_before_epoch_now_read.2.2.1,
+   by decide, Sqlite.get_complete_before_epoch_now_read.2.2.2⟩
 
 /-! ## memory -/
 
@@ -166,5 +182,17 @@ theorem count_agrees_peewee (s : Peewee.St D) (b : String) (st en : Option Int) 
 example : Memory.getEvents (D := Nat)
     [("b", (default, [⟨some 0, 0, 5000, 1⟩, ⟨some 1, 10000, 1000, 2⟩]))] "b" (-1) (some 6000) none
     = .ok [⟨some 1, 10000, 1000, 2⟩] := by rfl
+
+/-- `complete_sqlite` and `sound_sqlite` on a state containing an event that ends before the epoch
+    (negative instants), read without a start bound: the repaired read returns it -/
+example : (⟨some 4, -9000, 1000, ()⟩ : Ev Unit) ∈ Sqlite.getEvents Sqlite.exReads "a" (-1) none (some 6000) :=
+  complete_sqlite Sqlite.exReads "a" (-1) (by decide) none (some 6000) default _
+    sqlite_before_epoch_now_read.1 _ (by decide) (by decide)
+example := sound_sqlite Sqlite.exReads "a" (-1) none (some 6000) ⟨some 4, -9000, 1000, ()⟩ (by decide)
+example : Sqlite.getEventcount Sqlite.exReads "a" none (some (-8500)) = 1 ∧
+    (Sqlite.getEvents Sqlite.exReads "a" (-1) (roundWin none (some (-8500))).1
+      (roundWin none (some (-8500))).2).length = 1 :=
+  ⟨by decide, by decide⟩
+example := count_agrees_sqlite Sqlite.exReads "a" none (some (-8500))
 
 end AwProofs.C03
